@@ -64,7 +64,7 @@ inductive Step
   | rmdir
   | mkdir
   | write (n : FName) (c : Content)
-deriving Repr
+deriving DecidableEq, Repr
 
 def apply : Dir → Step → Dir
   | some fs, .rm n => some (fs.filter (fun e => !(e.1 == n)))
